@@ -43,10 +43,18 @@ func (t *T) SetFrame(frame string) {
 }
 
 func (t *T) GetRemoveSuffixKey() string {
+	if len(t.key) == 0 {
+		return ""
+	}
+
 	return t.key[:len(t.key)-1]
 }
 
 func (t *T) GetRemovePrefixKey() string {
+	if len(t.key) == 0 {
+		return ""
+	}
+
 	return t.key[1:]
 }
 
